@@ -137,35 +137,50 @@ class Exec:
     # ---------------------------------------------------------------- places / operands
     def read_place(self, env, place):
         place = place.strip()
+        if ("place:" + place) in env:
+            return env["place:" + place]   # a field written earlier on this path
         m = re.match(r"^(_\d+)$", place)
         if m:
             if place not in env:
                 ty = self.fn.locals.get(place, "?")
                 raise Unsupported(f"read of unassigned local {place}: {ty} in {self.fn.name}")
             return env[place]
-        # (BASE.k: T)
-        m = re.match(r"^\((.*)\.(\d+): (.*)\)$", place)
-        if m:
-            base, k, ty = m.group(1), int(m.group(2)), m.group(3)
-            b = self.read_place(env, base)
-            if b[0] == "tuple":
-                return b[1][k]
-            if b[0] == "opq":
-                return self.typed_fresh(f"{b[1]}.{k}", ty)
-            raise Unsupported("field of non-aggregate: " + place)
-        m = re.match(r"^\(\*(.*)\)$", place)
-        if m:
-            b = self.read_place(env, m.group(1))
-            if b[0] == "opq":
-                return ("opq", b[1])   # deref of an opaque reference: same abstract object
-            return b
-        m = re.match(r"^\(\((.*)\) as variant#(\d+)\)$", place) or re.match(r"^\((.*) as (\w+)\)$", place)
-        if m:
-            b = self.read_place(env, m.group(1))
-            if b[0] == "opq":
-                return ("opq", f"{b[1]}@{m.group(2)}")
-            if b[0] in ("option", "enum"):
-                return ("tuple", [b[2]])   # the variant's single payload field
+        if place.startswith("(") and place.endswith(")"):
+            inner = place[1:-1]
+            if inner.startswith("*"):
+                b = self.read_place(env, inner[1:])
+                if b[0] == "opq":
+                    return ("opq", b[1])   # deref of an opaque reference: same abstract object
+                return b
+            # split at nesting depth 0: "<base> as <Variant>"  or  "<base>.<k>: <type>"
+            depth, cut_as, cut_field = 0, None, None
+            for idx, ch in enumerate(inner):
+                if ch in "([{<":
+                    depth += 1
+                elif ch in ")]}>":
+                    depth -= 1
+                elif depth == 0 and inner.startswith(" as ", idx) and cut_as is None and cut_field is None:
+                    cut_as = idx
+                elif depth == 0 and ch == "." and cut_field is None and cut_as is None and re.match(r"^\.\d+: ", inner[idx:]):
+                    cut_field = idx
+            if cut_as is not None:
+                b = self.read_place(env, inner[:cut_as])
+                variant = inner[cut_as + 4:].strip()
+                if b[0] == "opq":
+                    return ("opq", f"{b[1]}@{variant}")
+                if b[0] in ("option", "enum"):
+                    return ("tuple", [b[2]])   # the variant's single payload field
+                raise Unsupported("downcast of non-enum: " + place)
+            if cut_field is not None:
+                base = inner[:cut_field]
+                fm = re.match(r"^\.(\d+): (.*)$", inner[cut_field:])
+                k, ty = int(fm.group(1)), fm.group(2)
+                b = self.read_place(env, base)
+                if b[0] == "tuple":
+                    return b[1][k]
+                if b[0] == "opq":
+                    return self.typed_fresh(f"{b[1]}.{k}", ty)
+                raise Unsupported("field of non-aggregate: " + place)
         raise Unsupported("place: " + place)
 
     def operand(self, env, op):
@@ -271,6 +286,12 @@ class Exec:
             return ("opq", "closure:" + rv)
         if rv.startswith("copy ") or rv.startswith("move ") or rv.startswith("const ") or rv.startswith("no_retag "):
             return self.operand(env, rv)
+        if rv.startswith("(") and rv.endswith(")") and not rv.startswith("(*") and (rv == "()" or "," in rv):
+            parts = split_top(rv[1:-1])
+            if all(p.startswith(("copy ", "move ", "const ")) for p in parts):
+                return ("tuple", [self.operand(env, p) for p in parts])   # tuple aggregate
+        if re.match(r"^[\w:<>]+ \{.*\}$", rv):
+            return ("opq", "aggr:" + rv.split(" {")[0])   # struct / enum-struct-variant aggregate
         m = re.match(r"^(Div|Rem)\((.*)\)$", rv)
         if m:
             a, b = [self.operand(env, x) for x in split_top(m.group(2))]
@@ -377,7 +398,9 @@ class Exec:
         if re.match(r"^_\d+$", dst):
             env[dst] = val
             return
-        raise Unsupported("assignment to projection: " + dst)
+        # store through a projection (a field of *self, an element behind a reference): remembered by
+        # its place text; distinct place texts are assumed not to alias (true for fields of one struct)
+        env["place:" + dst] = val
 
     def call(self, callee, argv, dst, env, pc):
         ty = self.fn.locals.get(dst.strip(), "()") if dst else "()"
